@@ -37,6 +37,25 @@ def _nearest_scope(path):
     return path[:i] if i >= 0 else None
 
 
+def _weq(a, b):
+    """equality of parsed observations where the projection (err any) — an error whose constraint flag depends on
+    Go's map iteration order (several faults in one input, see c14Unser) — matches every error"""
+    if isinstance(a, list) and isinstance(b, list):
+        if a[:1] == ["err"] and b[:1] == ["err"] and ("any" in a[1:2] or "any" in b[1:2]):
+            return True
+        return len(a) == len(b) and all(_weq(x, y) for x, y in zip(a, b))
+    return a == b
+
+
+def scopes_agree(case, obs, pred):
+    if obs == pred:
+        return True
+    try:
+        return _weq(_P.sx_parse(obs), _P.sx_parse(pred))
+    except Exception:
+        return False
+
+
 def scopes_stats(rows):
     distinct = set()
     nontrivial = 0
@@ -115,9 +134,9 @@ def scopes_direct(case, obs):
                     % (vr, "no" if all_linked else "a", "construction" if i == 0 else "applying " + ", ".join(order[:i])))
     if rev is not None and sts and rev != sts[-1]:
         return "applying the namespaces in the reverse order gives another link state: %s vs %s" % (str(rev)[:300], str(sts[-1])[:300])
-    if ops is not None and inl is not None and ops != inl:
+    if ops is not None and inl is not None and not _weq(ops, inl):
         for k, (a, b) in enumerate(zip(ops, inl)):
-            if a != b:
+            if not _weq(a, b):
                 return ("replacing the references by the objects they denote changed behaviour on input #%d: with references %s, "
                         "inlined %s" % (k + 1, str(a)[:300], str(b)[:300]))
         return "replacing the references by the objects they denote changed behaviour: %s vs %s" % (str(ops)[:200], str(inl)[:200])
@@ -158,6 +177,7 @@ def register(props):
     props.FAMILY_STATS["c14scopes"] = scopes_stats
     props.DIRECT[("C14", "c14scopes")] = scopes_direct
     props.EXPLAIN[("C14", "c14scopes")] = scopes_explain
+    props.AGREE[("C14", "c14scopes")] = scopes_agree
     props.KNOWN_PREDICATES["c14_inline_cycle"] = kf_inline_cycle
     props.PROPS["C14"] = {
         "theory": "Properties/C14.v",
@@ -174,18 +194,38 @@ def register(props):
                 "namespace",
         "assumptions": ["scope nests are trees (two scopes sharing one Go object by pointer are outside the quantifier)",
                         "error PATHS are not compared between a schema and its inlined partner (several faults: first error "
-                        "depends on map order); outcome class, constraint flag and values are"],
-        "level_text": "Theorems (unbounded, by induction on fuel): ApplyNamespace changes the link of an occurrence only if a "
-                      "reference with the applied namespace sits there (C14_other_ns_untouched); ValidateReferences holds iff every "
-                      "reference occurrence is linked (C14_validate_refs_iff); a self-namespace reference and the object it resolves "
-                      "to behave identically under unserialize / validate / serialize with one unit of fuel less (C14_inline_step_*); "
-                      "the self-referential scope diverges on a non-map input for every fuel (C14_recursive_refuted, D11). "
-                      "Partial / by evaluation only: lexical targets, order irrelevance, link/resolve agreement, inlining in an "
-                      "arbitrary context and termination on recursive graphs are checked on every generated case (direct checks and "
-                      "the correspondence with Schema/Link.v + Schema/Ops.v) and on vm_compute examples, not proved in general.",
-        "level_note": "Model = Schema/Link.v (link table keyed by the path of each reference occurrence; ApplyNamespace, "
-                      "NewScopeSchema construction order, ValidateReferences), hand-written from scope.go / ref.go and the "
-                      "ApplyNamespace methods of list, map, object, property, one-of after the fix for D61; the data operations "
-                      "are Schema/Ops.v with its environment lookup.",
+                        "depends on map order); outcome class, constraint flag and values are; a failing Unserialize is "
+                        "repeated 200 times and a constraint flag that varies with Go's map iteration order is projected to "
+                        "(err any), which matches every error"],
+        "level_text": "Theorems, all unbounded (every schema, table, input and fuel; induction on fuel / on the schema): "
+                      "ApplyNamespace(ns) sets EXACTLY the occurrences of namespace ns, each to the object of that id in the table "
+                      "handed to it (C14_sets_exactly) and leaves all others untouched (C14_other_ns_untouched); after construction "
+                      "every self reference inside a scope is linked to the object of that id in the NEAREST enclosing scope, inner "
+                      "scopes shadowing outer ones (C14_lexical); with the namespaces of the environment applied in any order the "
+                      "link table equals the environment lookup `resolve` of Schema/Ops.v at EVERY reference occurrence "
+                      "(C14_link_agrees; C14_apply_namespaces for any partial list of applications); any permutation of the external-namespace applications returns iff the given order "
+                      "does and gives the same link table (C14_order_irrelevant); ValidateReferences holds iff every occurrence is linked (C14_validate_refs_iff); "
+                      "replacing any number of self references by their objects IN AN ARBITRARY CONTEXT (relation inlines_to, closed "
+                      "under list / map / property / one-of member / scope, with the inlined tables entered by scopes) preserves "
+                      "unserialize / validate / serialize on all inputs: every non-OutOfFuel result of the original is the result of "
+                      "the inlined schema at the same fuel, and conversely at twice the fuel (C14_inline_equiv_{unser,validate,"
+                      "serialize}; C14_inline_refs_equiv(_back) for the mechanical inliner used as metamorphic partner; "
+                      "C14_inline_step_* for one step); self- and mutually-referential objects are not OutOfFuel from the explicit "
+                      "bound fuel_bound K e s v = K + 3 + (4*nic_fuel e s + 8)*(1 + vdepth v) on, under wf_schema, no_inline_cycle "
+                      "and defaults_total K (C14_recursive_terminates, built on the C04 termination proof of work package c04c12); "
+                      "without no_inline_cycle it is refuted: the self-referential one-property scope diverges on a non-map input "
+                      "for every fuel (C14_recursive_refuted, D11). Side conditions are boolean functions with examples: luniq "
+                      "(unique keys, as in Go maps), ns_names_ok (distinct namespace names, none the self namespace), "
+                      "refs_to_objects (scope tables hold objects); all three are evaluated by the model run on every generated "
+                      "case (a case violating one would be reported as a disagreement). C14_order_irrelevant is total: if one "
+                      "order returns, every permutation returns, with the same table. Partial: two scopes sharing one Go object "
+                      "by pointer are outside the model (scope nests are trees).",
+        "level_note": "Model = Schema/Link.v (link table keyed by the STRUCTURED path — a list of steps — of each reference "
+                      "occurrence, so that distinct occurrences provably have distinct paths; lpath_text gives the text the "
+                      "harness prints; ApplyNamespace, NewScopeSchema construction order, ValidateReferences), hand-written from "
+                      "scope.go / ref.go and the ApplyNamespace methods of list, map, object, property, one-of after the fix for "
+                      "D61; the data operations are Schema/Ops.v with its environment lookup. Proofs: Proofs/Link.v, Link2.v "
+                      "(linking), Link2Inline.v (inlining), Link2Term.v + Schema/Wf.v, Schema/Total.v, Proofs/C04Inv.v, "
+                      "C04Term.v, OpsEq.v, MonoEq.v (termination; copied from work package c04c12).",
         "design_ref": "DESIGN.md §5 C14",
     }
